@@ -165,6 +165,7 @@ def main(tier):
     # ... and the factories of the pair checkers that receive them (direction, tolerance, bench, cylinder radius, codes, dates, faults)
     gdir = os.path.join(REPO, "src/Geometry")
     pun += [os.path.join(gdir, x) for x in sorted(os.listdir(gdir)) if x.startswith("BiTargetCheck") and x.endswith(".cpp")]
+    pun += [os.path.join(REPO, "src/Core/variopgs.cpp")]       # the geometry of the PGS variograms enumerates its pairs like Vario.cpp (rule C12t)
     pprog = Program().load_dir(extract(pun, "C12p-" + tier)) if tier != "thorough" else prog
     if tier != "thorough":
         dh, excluded = facts.extract_headers("C12h-" + tier)
@@ -215,6 +216,46 @@ def main(tier):
                    "according to which of its samples comes first (the count of pairs of a lag depends on the order of the samples)" % show(l)[:40],
                    key="C12s|%s|%s" % (f.name, show(x)[:30]))
     chk.floor("C12s", ns, 3)
+    # C12t: the pruning of the sorted pair enumeration measures (second sample) - (first sample).  `if (db->getDistance1D(a, b) > maxdist) break;`
+    # leaves the inner loop for good: that is right only when the distance grows with the inner counter, i.e. when `a` is the sample of the
+    # INNER loop and `b` the one of the outer loop (the samples are visited by increasing first coordinate).  With the arguments exchanged the
+    # test never fires without dates (dead code) and fires at once with dates, where the inner loop starts at the left-most sample.
+    nt = 0
+    for f in sorted(list(prog.funcs) + [g_ for g_ in pprog.funcs if g_.usr not in prog.by_usr], key=lambda x: (x.file, x.line)):
+        if f.body is None:
+            continue
+        for L in f.walk():
+            if L["k"] != "For" or len(L["c"]) < 4 or L["c"][3] is None:
+                continue
+            inner_assigned = {(_strip(z["c"][0]) or {}).get("d") for z in walk(L["c"][3]) if z["k"] == "Assign" and z.get("op") == "=" and
+                              not any(w["k"] == "For" for w in []) }
+            for x in (L["c"][3]["c"] if L["c"][3]["k"] == "Block" else [L["c"][3]]):
+                if x is None or x["k"] != "If" or x["c"][-3] is None or x["c"][-2] is None:
+                    continue
+                t = x["c"][-2]
+                if not (t["k"] == "Break" or (t["k"] == "Block" and [c_ for c_ in t["c"] if c_] and [c_ for c_ in t["c"] if c_][0]["k"] == "Break")):
+                    continue
+                calls = [z for z in walk(x["c"][-3]) if z["k"] == "MCall" and (z.get("callee") or "").split("::")[-1] == "getDistance1D"]
+                if not calls:
+                    continue
+                a, b = [_strip(z) for z in call_args(calls[0])[:2]]
+                if a is None or b is None or a["k"] != "DeclRefExpr" or b["k"] != "DeclRefExpr":
+                    continue
+                # which of the two is (re)assigned at the top level of THIS loop body
+                top = {(_strip(z["c"][0]) or {}).get("d") for z in (L["c"][3]["c"] if L["c"][3]["k"] == "Block" else [L["c"][3]])
+                       if z is not None and z["k"] == "Assign" and z.get("op") == "="}
+                top |= {v_.get("d") for z in (L["c"][3]["c"] if L["c"][3]["k"] == "Block" else [L["c"][3]]) if z is not None and z["k"] == "DeclStmt"
+                        for v_ in z.get("c") or [] if v_ is not None and v_["k"] == "VarDecl"}
+                if (a.get("d") in top) == (b.get("d") in top):
+                    continue
+                nt += 1
+                ok = a.get("d") in top
+                chk.analysed(f)
+                chk.ob("C12t", "%s: the pruning `%s` measures (sample of the inner loop) - (sample of the outer loop)" % (f.name, show(calls[0])[:40]), f.loc(x), ok,
+                       detail=None if ok else "`%s` is the sample of the OUTER loop: the difference is negative for every later sample (the test never fires) and, when "
+                       "the inner loop starts at the first sample (dates), positive at once: the loop is abandoned and the pairs are lost" % a["n"],
+                       key="C12t|%s|%s" % (f.name, show(calls[0])[:40]))
+    chk.floor("C12t", nt, 6)
     # C12k: the rank argument of a per-sample Db accessor comes from a loop over ALL the samples (c05_skip.rank_loop_rule)
     import c05_skip
     c05_skip.rank_loop_rule(prog, chk, "C12k", ("src/Variogram/",), 20)
